@@ -6,6 +6,7 @@ import (
 	"context"
 	"encoding/json"
 	"errors"
+	"expvar"
 	"fmt"
 	"math"
 	"net/http"
@@ -24,8 +25,8 @@ import (
 )
 
 type c12Attempt struct {
-	Path  string `json:"path"`  // prom | push:graphite | push:statsd | push:collectd | varz | graphite | json
-	Fault string `json:"fault"` // none | badname | dupkey | progkey | badvalue | write-error | cancel | cancel-before | nan
+	Path  string `json:"path"`  // prom | push:graphite | push:statsd | push:collectd | sock:graphite | sock:statsd | sock:collectd | varz | graphite | json
+	Fault string `json:"fault"` // none | badname | dupkey | progkey | badvalue | write-error | cancel | cancel-before | nan | dial-refused | peer-closes | peer-resets | peer-stalls | no-listener
 	MI    int    `json:"mi"`    // metric index (prom / json faults)
 	LI    int    `json:"li"`    // label set index
 	K     int    `json:"k"`     // failing / cancelling write number (1-based)
@@ -117,6 +118,12 @@ func c12Enumerate(c *storeCase) []c12Attempt {
 			out = append(out, c12Attempt{Path: "push:" + f, Fault: "write-error", K: k})
 		}
 	}
+	// the real push path: PushMetrics against a peer of each behaviour
+	for _, f := range []string{"graphite", "collectd", "statsd"} {
+		for _, fault := range c12SockFaults(f) {
+			out = append(out, c12Attempt{Path: "sock:" + f, Fault: fault})
+		}
+	}
 	all := 0
 	for mi := range c.Metrics {
 		all += len(c.Metrics[mi].LVs)
@@ -162,6 +169,17 @@ func runC12Attempt(base storeCase, a c12Attempt) (f *vstat.Failure, hit bool) {
 	if c.OmitProg {
 		opts = append(opts, exporter.OmitProgLabel())
 	}
+	var peer *c12Peer
+	if strings.HasPrefix(a.Path, "sock:") {
+		var perr error
+		peer, perr = newC12Peer(strings.TrimPrefix(a.Path, "sock:"), a.Fault)
+		if perr != nil {
+			return vstat.Failf("harness", "peer: %v", perr), false
+		}
+		defer peer.close()
+		restore := c12SetPushFlags(peer.format, peer.addr)
+		defer restore()
+	}
 	sc, err := hx.NewScraper(store, opts...)
 	if err != nil {
 		return vstat.Failf("harness", "%v", err), false
@@ -176,10 +194,29 @@ func runC12Attempt(base storeCase, a c12Attempt) (f *vstat.Failure, hit bool) {
 			return vstat.Failf("bad-case", "%v", err), false
 		}
 	}
+	if peer != nil && (a.Fault == "peer-stalls" || a.Fault == "peer-resets") {
+		bulk := c12Bulk(peer.format, a.Fault)
+		if err := store.Add(bulk); err != nil {
+			return vstat.Failf("bad-case", "%v", err), false
+		}
+		ms = append(ms, bulk)
+	}
 	before := emitters()
 
 	attempt := func() (hit bool, err error) {
 		switch {
+		case peer != nil:
+			// the fault was hit if at least one write of the push failed
+			recs := int64(0)
+			for _, m := range ms {
+				if m.Kind != metrics.Text {
+					recs += int64(len(m.LabelValues))
+				}
+			}
+			succ := expvar.Get(peer.format + "_export_success").(*expvar.Int)
+			s0 := succ.Value()
+			sc.Exp.PushMetrics()
+			return a.Fault != "none" && succ.Value()-s0 < recs, nil
 		case a.Path == "prom":
 			fams, _, gerr, _ := sc.Gather()
 			_ = fams
@@ -305,6 +342,9 @@ func runC12Attempt(base storeCase, a c12Attempt) (f *vstat.Failure, hit bool) {
 			}
 		}
 		_ = sc.Exp.VerifWriteSocketMetrics(&faultWriter{}, "statsd")
+		if peer != nil {
+			sc.Exp.PushMetrics()
+		}
 		sc.Exp.HandleVarz(&faultWriter{}, httptest.NewRequest("GET", "/varz", nil))
 		_, _, _, _ = sc.Gather()
 		follow <- nil
@@ -358,8 +398,8 @@ func runC12(c c12Case, st *vstat.Stats) *vstat.Failure {
 }
 
 func TestC12(t *testing.T) {
-	st := vstat.New("C12", "store shapes of 1-4 metrics x 0-4 label sets; for each shape EVERY export attempt is enumerated: Prometheus gather with each metric made unrepresentable (invalid name, duplicate key, key 'prog') and each label set given a non-UTF-8 value; graphite/statsd/collectd push with the writer failing at each successive write (1..records+1); varz and graphite HTTP handlers with the request cancelled before the first metric / at each write and the response writer failing at each write; JSON with each float made NaN; plus fault-free controls. non-trivial = an attempt whose injected fault was actually hit; distinct by (store, attempt)")
-	st.Assumptions = []string{"lock state observed with TryLock polled for 2 s; helper goroutines counted in the goroutine dump", "push path driven through the build-tagged hook VerifWriteSocketMetrics with a scripted writer"}
+	st := vstat.New("C12", "store shapes of 1-4 metrics x 0-4 label sets; for each shape EVERY export attempt is enumerated: Prometheus gather with each metric made unrepresentable (invalid name, duplicate key, key 'prog') and each label set given a non-UTF-8 value; graphite/statsd/collectd push with the writer failing at each successive write (1..records+1); varz and graphite HTTP handlers with the request cancelled before the first metric / at each write and the response writer failing at each write; JSON with each float made NaN; Exporter.PushMetrics over real sockets (graphite/TCP, collectd/unix stream, statsd/UDP) against a peer that refuses, closes at once, resets mid-push, never reads, or reads everything; plus fault-free controls. non-trivial = an attempt whose injected fault was actually hit; distinct by (store, attempt)")
+	st.Assumptions = []string{"lock state observed with TryLock polled for 2 s; helper goroutines counted in the goroutine dump", "push path driven through the build-tagged hook VerifWriteSocketMetrics with a scripted writer, and through PushMetrics on real loopback/unix sockets with metric_push_write_deadline=150ms (a socket fault counts as hit when fewer lines were written than the store holds)"}
 	runRaw := func(raw json.RawMessage) *vstat.Failure {
 		c, err := vstat.JSON[c12Case](raw)
 		if err != nil {
